@@ -50,7 +50,7 @@ def make_case(i, rng, tier):
                     vals = D.type_info(g["type"])[1]
                     pairs.insert(rng.randrange(len(pairs) + 1), (rng.choice(g["alias_from"]), rng.choice(vals)))
     # "runtime-bare": the runtime options carry the strategy only, i.e. they REPLACE the options the class was declared with
-    return {"decl": decl, "inputs": inputs, "route": rng.choice(["runtime", "runtime", "class", "runtime-bare"])}
+    return {"decl": decl, "inputs": inputs, "route": rng.choice(["runtime", "runtime", "class", "runtime-bare"]), "carrier": rng.random() < 0.12}
 
 
 def views(obj, decl):
@@ -81,6 +81,33 @@ def kinds(e, top=True):
             out += kinds(x, False)
         return sorted(out)
     return [(type(e).__name__, str(getattr(e, "item", None)))]
+
+
+def carrier(decl, data):
+    """the same values held by an INSTANCE of another Schema class: its items() show keys the target does not know ('cx_<name>'),
+    while its `in` and `[]` also answer to the attribute names - which are names the target accepts"""
+    import typing
+    import utype
+    ns = {"__annotations__": {}, "__module__": "vmon_generated", "__qualname__": "Carrier", "__options__": utype.Options(addition=True)}
+    kw = {}
+    for f in decl["fields"]:
+        acc = D.spellings(f, decl)[0]
+        given = [k for k in data if k in acc]
+        if not given or not f["name"].isidentifier():
+            continue
+        ns["__annotations__"][f["name"]] = typing.Any
+        ns[f["name"]] = utype.Field(alias="cx_" + f["name"], required=False)
+        kw["cx_" + f["name"]] = data[given[0]]
+    rest = {k: v for k, v in data.items() if not any(k in D.spellings(f, decl)[0] for f in decl["fields"])}
+    C = type(utype.Schema)("Carrier", (utype.Schema,), ns)
+    try:
+        return C.__from__(dict(kw, **rest))
+    finally:
+        D.drop(C)
+
+
+def _fresh(d):
+    return dict(d) if type(d) is dict else d.copy()
 
 
 def call(target, decl, data, opts_extra):
@@ -198,13 +225,19 @@ def run_case(case, ctx):
             data = D.to_mapping(pairs)
             if decl["base"] == "function" and not all(isinstance(k, str) for k in data):
                 continue
+            if case.get("carrier") and decl["base"] != "function" and all(isinstance(k, str) for k in data):
+                try:
+                    data = carrier(decl, data)
+                    ctx.count("inputs_given_as_an_instance_of_another_schema")
+                except Exception:
+                    ctx.count("carrier_not_buildable")
             bare = {"__bare__": True} if case["route"] == "runtime-bare" else {}
             if runtime:
-                a = call(TA, decl, dict(data), dict(bare, data_first_search=True))
-                b = call(TB, decl, dict(data), dict(bare, data_first_search=False))
+                a = call(TA, decl, _fresh(data), dict(bare, data_first_search=True))
+                b = call(TB, decl, _fresh(data), dict(bare, data_first_search=False))
             else:
-                a = call(TA, decl, dict(data), None)
-                b = call(TB, decl, dict(data), None)
+                a = call(TA, decl, _fresh(data), None)
+                b = call(TB, decl, _fresh(data), None)
             ctx.count("pairs_run")
             if a.kind == "escape" or b.kind == "escape":
                 # a non-ParseError is C04's subject; it is still compared as a failure kind here
@@ -227,11 +260,11 @@ def run_case(case, ctx):
             else:
                 # both fail: compare kinds through collect_errors
                 if runtime:
-                    ac = call(TAc, decl, dict(data), dict(bare, data_first_search=True, collect_errors=True))
-                    bc = call(TBc, decl, dict(data), dict(bare, data_first_search=False, collect_errors=True))
+                    ac = call(TAc, decl, _fresh(data), dict(bare, data_first_search=True, collect_errors=True))
+                    bc = call(TBc, decl, _fresh(data), dict(bare, data_first_search=False, collect_errors=True))
                 else:
-                    ac = call(TAc, decl, dict(data), None)
-                    bc = call(TBc, decl, dict(data), None)
+                    ac = call(TAc, decl, _fresh(data), None)
+                    bc = call(TBc, decl, _fresh(data), None)
                 if ac.ok != bc.ok:
                     ctx.violation(classify(decl, TA, data, "collected-errors-differ", ac, bc),
                                   f"{D.describe(decl)} input={short(data, 160)} collect_errors: data-first -> {ac!r}; field-first -> {bc!r}", wit, sig=sig)
